@@ -135,6 +135,9 @@ class C07(Check):
             for i in range(5):
                 for variant in (0, 1):
                     out.append(("baits", bpt, i, variant, tier))
+        for bpt in self.bpts(tier):
+            for c in range(8):
+                out.append(("tags", bpt, c, 8, tier))
         return out
 
     def run_case(self, inp, pvspec, ctx, kind):
@@ -158,13 +161,17 @@ class C07(Check):
         ctx.outcome(h64(pv.out_spec(out)))
 
     def run_shard(self, shard, ctx):
-        if shard[0] == "baits":
-            # reuse the C01 bait scope with this oracle
+        if shard[0] in ("baits", "tags"):
+            # reuse the C01 bait / tagged-script scopes with this oracle
             chk = c01.CHECK
             saved = chk.run_case
             try:
-                chk.run_case = lambda inp, pvspec, c, kind: self.run_case(inp, pvspec, c, "baits")
-                chk.scope_baits(*shard[1:], ctx)
+                if shard[0] == "baits":
+                    chk.run_case = lambda inp, pvspec, c, kind: self.run_case(inp, pvspec, c, "baits")
+                    chk.scope_baits(*shard[1:], ctx)
+                else:
+                    chk.run_case = lambda inp, pvspec, c, kind: self.run_case(inp, pvspec, c, "pv")
+                    chk.scope_tags(*shard[1:], ctx)
             finally:
                 chk.run_case = saved
             return
